@@ -45,6 +45,8 @@ def render(run) -> str:
         o.append(f"SIBLING {run['sibling']}")
     if run.get('reentry'):
         o.append(f"REENTRY {run['reentry']}")
+    if run.get('temploc'):
+        o.append('TEMPLOC 1')
     if run.get('slowlog'):
         o.append(f"SLOWLOG {run['slowlog']}")
     for t in run['tasks']:
@@ -72,6 +74,8 @@ def vary_env(rng: Rng, run):
         run['idquery'] = r.between(1, run['clients'] - 1)
     if r.chance(30):
         run['sibling'] = r.between(1, 2)   # a second, independent instance of the same shell type lives in the process
+    if run['loc']['pump'] == 0 and run['loc']['runtime'] == 0 and r.chance(40):
+        run['temploc'] = 1   # 'create' worlds only (new_run puts pump and runtime into the user's locator for 'import')
     return run
 
 
